@@ -49,46 +49,44 @@ Theorem C10_identity : forall W ii si chunks,
 Proof. exact wrap_identity. Qed.
 Print Assumptions C10_identity.
 
-(* ---- MCNP_Object._wrap_line (one source line) and wrap_string_for_mcnp (all lines) ---- *)
+(* ---- MCNP_Object._wrap_line (one raw source line) and wrap_string_for_mcnp (all lines), as of /repo c3da1f2.
+        W is the column limit, cont = BLANK_SPACE_CONTINUE, ii/si the initial/continuation indent
+        (MontePy: W = 80 or 128, cont = 5, ii = "" or 5 blanks, si = 5 blanks) ---- *)
 
-(* 6. _wrap_line always returns: no IndexError on ret[-1], the fuel of the model suffices.
-      W is the column limit, ii/si the initial/continuation indent (MontePy: "" or 5 blanks / 5 blanks) *)
-Theorem C10_line_total : forall W ii si l,
-  2 < W -> slen ii < W -> slen si + 2 < W -> blank_data_fits W ii (l_text l) -> chunks_ok l ->
-  exists out, wrap_line W ii si l = WOk out.
+(* 6. _wrap_line and wrap_string_for_mcnp always return: no IndexError on ret[-1], the fuel of the model suffices *)
+Theorem C10_line_total : forall W cont ii si line,
+  2 < W -> slen ii < W -> slen si + 2 < W -> exists out, wrap_line W cont ii si line = WOk out.
 Proof. exact wrap_line_total. Qed.
 Print Assumptions C10_line_total.
 
-(* 7. every line _wrap_line returns fits the limit, comment continuation lines included (their indent is the
-      continuation indent + "$ ": hence slen si + 2 < W, i.e. 7 < W for MontePy) — unless the text before the
-      first '$' is blank and reaches the limit *)
-Theorem C10_line_width_partial : forall W ii si l out,
-  2 < W -> slen ii < W -> slen si + 2 < W -> blank_data_fits W ii (l_text l) ->
-  wrap_line W ii si l = WOk out -> Forall (fun x => slen x <= W) out.
+Theorem C10_lines_total : forall W cont (first : bool) lines,
+  cont + 2 < W -> exists out, wrap_lines W cont first lines = WOk out.
+Proof. exact wrap_lines_total. Qed.
+Print Assumptions C10_lines_total.
+
+(* 7. every written line fits the limit, for every line and every width with room for the comment continuation
+      indent (continuation indent + "$ ": slen si + 2 < W, i.e. 7 < W for MontePy) *)
+Theorem C10_line_width : forall W cont ii si line out,
+  2 < W -> slen ii < W -> slen si + 2 < W ->
+  wrap_line W cont ii si line = WOk out -> Forall (fun x => slen x <= W) out.
 Proof. exact wrap_line_width. Qed.
-Print Assumptions C10_line_width_partial.
+Print Assumptions C10_line_width.
 
-Theorem C10_line_width_refuted :
-  exists W ii si l out,
-    7 < W /\ slen ii < W /\ slen si + 2 < W /\ wrap_line W ii si l = WOk out /\
-    ~ Forall (fun x => slen x <= W) out.
-Proof. exact wrap_line_width_refuted. Qed.
-Print Assumptions C10_line_width_refuted.
-
-Theorem C10_lines_width_partial : forall W cont (first : bool) lines out,
+Theorem C10_lines_width : forall W cont (first : bool) lines out,
   cont + 2 < W ->
-  Forall (fun l => blank_data_fits W (if first then "" else blanks cont) (l_text l)) lines ->
   wrap_lines W cont first lines = WOk out -> Forall (fun x => slen x <= W) out.
 Proof. exact wrap_lines_width. Qed.
-Print Assumptions C10_lines_width_partial.
+Print Assumptions C10_lines_width.
 
 (* 8. the first line of a source line starts with the initial indent; every other line starts with the
-      continuation indent (5 blanks), or is a "c " line continuing a line MontePy takes for a comment line *)
-Theorem C10_line_indent : forall W ii si l out,
-  wrap_line W ii si l = WOk out ->
+      continuation indent (5 blanks), or is a "c " line continuing a written line that passes MontePy's test for a
+      comment line (theorem 9b: that test is MCNP's rule) *)
+Theorem C10_line_indent : forall W cont ii si line out,
+  String.prefix ii si = true ->
+  wrap_line W cont ii si line = WOk out ->
   match out with
   | [] => True
-  | l0 :: rest => String.prefix ii l0 = true /\ Forall (cont_ok si (l_text l)) rest
+  | l0 :: rest => String.prefix ii l0 = true /\ Forall (cont_ok cont si (ii ++ expandtabs line)) rest
   end.
 Proof. exact wrap_line_indent. Qed.
 Print Assumptions C10_line_indent.
@@ -100,82 +98,84 @@ Print Assumptions C10_line_indent.
 
 (* 9. wrapping never turns comment text into data or data into comment, and re-splitting the written lines gives
       the tokens and the comment text of the unwrapped line (the comment text up to the blanks at the break points
-      and the "$ " / "c " markers of its continuation lines).
-      Hypotheses: MontePy's indents (cont = 5); 11 < W; the line is plain (its chunks are its blank-separated
-      runs: no tab, and textwrap's chunker did not split a word at a hyphen); MontePy's is_comment agrees with MCNP
-      about the written line; every run of the data part fits a continuation line.  Each hypothesis that excludes
-      a behaviour of the real code is matched by a _refuted theorem below. *)
-Theorem C10_line_meaning_partial : forall W cont (first : bool) line out,
-  5 <= cont -> cont + 2 < W -> 11 < W ->
-  is_comment line = mcnp_comment_line ((if first then "" else blanks cont) ++ line) ->
-  (is_comment line = false -> Forall (fun c => slen c <= W - cont) (split_ws (before_dollar line))) ->
-  wrap_line W (if first then "" else blanks cont) (blanks cont) (plain_line line) = WOk out ->
-  data_tokens out = data_tokens [(if first then "" else blanks cont) ++ line] /\
-  noblank (comment_text out) = noblank (comment_text [(if first then "" else blanks cont) ++ line]).
+      and the "$ " / "c " markers of its continuation lines).  For every plain line (its only whitespace characters
+      are blanks; tabs: theorem 9c), both indents MontePy uses, every width 11 < W; the one condition is that no
+      run of the data part is longer than a continuation line (such a word cannot be written: 9e). *)
+Theorem C10_line_meaning : forall W (first : bool) line out,
+  11 < W -> plain_text line = true ->
+  (mcnp_comment_line ((if first then "" else blanks 5) ++ line) = false ->
+   Forall (fun c => slen c <= W - 5) (split_ws (before_dollar line))) ->
+  wrap_line W 5 (if first then "" else blanks 5) (blanks 5) line = WOk out ->
+  data_tokens out = data_tokens [(if first then "" else blanks 5) ++ line] /\
+  noblank (comment_text out) = noblank (comment_text [(if first then "" else blanks 5) ++ line]).
 Proof. exact wrap_line_meaning. Qed.
-Print Assumptions C10_line_meaning_partial.
+Print Assumptions C10_line_meaning.
 
 (* its hypotheses are satisfiable by a '$' comment that is continued on two lines, and by a comment line *)
 Example C10_line_meaning_nonvacuous :
   let line := "1 2 3 $ a long comment that is wrapped" in
-  5 <= 5 /\ 5 + 2 < 20 /\ 11 < 20 /\ is_comment line = mcnp_comment_line ("" ++ line) /\
+  11 < 20 /\ plain_text line = true /\
   Forall (fun c => slen c <= 20 - 5) (split_ws (before_dollar line)) /\
-  wrap_line 20 "" (blanks 5) (plain_line line) =
+  wrap_line 20 5 "" (blanks 5) line =
     WOk ["1 2 3 $ a long "; "     $ comment that "; "     $ is wrapped"].
 Proof. exact wrap_line_meaning_example. Qed.
 Print Assumptions C10_line_meaning_nonvacuous.
 
 Example C10_line_meaning_nonvacuous_comment_line :
   let line := "c a comment line that is longer than twenty columns" in
-  is_comment line = mcnp_comment_line ("" ++ line) /\ is_comment line = true /\
-  wrap_line 20 "" (blanks 5) (plain_line line) =
+  plain_text line = true /\ mcnp_comment_line line = true /\
+  wrap_line 20 5 "" (blanks 5) line =
     WOk ["c a comment line "; "c that is longer "; "c than twenty "; "c columns"].
 Proof. exact wrap_line_comment_example. Qed.
 Print Assumptions C10_line_meaning_nonvacuous_comment_line.
 
-(* 9a. is_comment takes a continuation line whose first word is "c" for a comment line: data becomes comment *)
-Theorem C10_line_meaning_refuted_c_beyond_column_5 :
+(* 9b. MontePy's test for a comment line in _wrap_line (utilities.is_comment and a non-blank in the first five
+       columns) is MCNP's rule on every plain written line of seven or more characters *)
+Theorem C10_comment_test_is_mcnp_rule : forall w, plain_text w = true -> 7 <= slen w ->
+  comment_branch 5 w = mcnp_comment_line w.
+Proof. exact comment_test_agrees. Qed.
+Print Assumptions C10_comment_test_is_mcnp_rule.
+
+(* 9c. tabs are expanded first: a line is wrapped exactly as its expansion is *)
+Theorem C10_line_tabs : forall W cont ii si line,
+  plain_text (expandtabs line) = true ->
+  wrap_line W cont ii si line = wrap_line W cont ii si (expandtabs line).
+Proof. exact wrap_line_tabs. Qed.
+Print Assumptions C10_line_tabs.
+
+(* 9d. the bound 11 < W of theorem 9 is needed (MontePy: 80 and 128) *)
+Theorem C10_line_meaning_needs_wide_lines :
   exists W line out,
-    11 < W /\ wrap_line W "" (blanks 5) (plain_line line) = WOk out /\
-    is_comment line = true /\ mcnp_comment_line line = false /\
+    5 + 2 < W /\ plain_text line = true /\
     Forall (fun c => slen c <= W - 5) (split_ws (before_dollar line)) /\
+    wrap_line W 5 "" (blanks 5) line = WOk out /\
     data_tokens out <> data_tokens [line].
-Proof. exact wrap_line_meaning_refuted_c_beyond_column_5. Qed.
-Print Assumptions C10_line_meaning_refuted_c_beyond_column_5.
+Proof. exact wrap_line_meaning_needs_wide_lines. Qed.
+Print Assumptions C10_line_meaning_needs_wide_lines.
 
-(* 9b. textwrap's chunker splits "be-met.40t" after the hyphen: a token is written on two lines *)
-Theorem C10_line_meaning_refuted_hyphen :
-  exists W l out,
-    11 < W /\ String.concat "" (l_chunks l) = l_text l /\ is_comment (l_text l) = false /\
-    mcnp_comment_line (l_text l) = false /\
-    Forall (fun c => slen c <= W - 5) (l_chunks l) /\
-    wrap_line W "" (blanks 5) l = WOk out /\
-    data_tokens out <> data_tokens [l_text l].
-Proof. exact wrap_line_meaning_refuted_hyphen. Qed.
-Print Assumptions C10_line_meaning_refuted_hyphen.
-
-(* 9c. a line with tabs whose raw length fits: textwrap expands the tabs and wraps the '$' comment as data *)
-Theorem C10_line_meaning_refuted_tab :
-  exists W l out,
-    11 < W /\ String.concat "" (l_chunks l) = munge (l_text l) /\ is_comment (l_text l) = false /\
-    wrap_line W "" (blanks 5) l = WOk out /\
-    data_tokens out <> data_tokens [munge (l_text l)].
-Proof. exact wrap_line_meaning_refuted_tab. Qed.
-Print Assumptions C10_line_meaning_refuted_tab.
-
-(* 9d. the bound 11 < W is needed (MontePy: 80 and 128) *)
-Theorem C10_line_meaning_refuted_narrow :
+(* 9e. ... and so is the bound on the words of the data part: a word longer than a continuation line is cut *)
+Theorem C10_line_meaning_needs_writable_words :
   exists W line out,
-    5 + 2 < W /\ is_comment line = mcnp_comment_line line /\
-    Forall (fun c => slen c <= W - 5) (split_ws (before_dollar line)) /\
-    wrap_line W "" (blanks 5) (plain_line line) = WOk out /\
+    11 < W /\ plain_text line = true /\ wrap_line W 5 "" (blanks 5) line = WOk out /\
     data_tokens out <> data_tokens [line].
-Proof. exact wrap_line_meaning_refuted_narrow. Qed.
-Print Assumptions C10_line_meaning_refuted_narrow.
+Proof. exact wrap_line_meaning_needs_writable_words. Qed.
+Print Assumptions C10_line_meaning_needs_writable_words.
 
-(* 10. a line that fits is written unchanged by _wrap_line *)
-Theorem C10_line_identity : forall W ii si line,
-  line <> "" -> slen ii + slen line <= W -> wrap_line W ii si (plain_line line) = WOk [ii ++ line].
+(* 9f. the four inputs that refuted these theorems before /repo commits 6283f05 and c3da1f2 (blanks up to the limit
+       before a '$'; a C beyond column 5; a hyphenated word at the limit; tabs) are now wrapped correctly *)
+Example C10_repaired_examples :
+  wrap_line 20 5 "" (blanks 5) (blanks 22 ++ "$ x y") = WOk ["     $ x y"] /\
+  wrap_line 20 5 "" (blanks 5) "          c 1 2 3 4 5 6 7 8" = WOk ["          c 1 2 3 4 "; "     5 6 7 8"] /\
+  wrap_line 20 5 "" (blanks 5) "mt1 lwtr.10t be-met.40t" = WOk ["mt1 lwtr.10t "; "     be-met.40t"] /\
+  wrap_line 20 5 "" (blanks 5) ("1" ++ String tab_char (String tab_char "2 $ aa bb cc")) =
+    WOk ["1               2 "; "     $ aa bb cc"].
+Proof. exact wrap_line_repaired_examples. Qed.
+Print Assumptions C10_repaired_examples.
+
+(* 10. a plain line that fits is written unchanged by _wrap_line *)
+Theorem C10_line_identity : forall W cont ii si line,
+  plain_text line = true -> line <> "" -> slen ii + slen line <= W ->
+  wrap_line W cont ii si line = WOk [ii ++ line].
 Proof. exact wrap_line_identity. Qed.
 Print Assumptions C10_line_identity.
 
